@@ -29,7 +29,7 @@ def pad(rng, s, p=0.25):
 
 def wf_part(rng):
     r = rng.random()
-    n = rng.choice(NAMES)
+    n = rng.choice(NAMES) if rng.random() < 0.93 else long_name(rng)
     if r < 0.2:
         return pad(rng, rng.choice(LEVEL_SPELLINGS))
     if r < 0.35:
@@ -39,9 +39,17 @@ def wf_part(rng):
     return pad(rng, n) + "=" + pad(rng, rng.choice(LEVEL_SPELLINGS))
 
 
+def long_name(rng):
+    """a module name of 20..90 bytes in which multi-byte characters sit at every byte offset sooner or later
+    (anything that cuts, pads or echoes a part at a fixed byte position meets a character boundary problem)"""
+    lead = "a" * rng.randint(0, 3)
+    body = "".join(rng.choice(["ö", "ö", "x", "€", "\U0001F600", "::", "_"]) for _ in range(rng.randint(10, 40)))
+    return lead + body
+
+
 def bad_part(rng):
     r = rng.random()
-    n = rng.choice(NAMES)
+    n = rng.choice(NAMES) if rng.random() < 0.8 else long_name(rng)
     if r < 0.25:
         return n + rng.choice(WS[:2]) + "x=" + rng.choice(LEVELS)      # white space inside the name
     if r < 0.5:
@@ -82,7 +90,7 @@ def spec_string(rng, malformed=0.0, allow_regex=True, unique=False):
 def unicode_soup(rng):
     alphabet = ["a", "b", "=", ",", " ", "\t", "é", " ", " ", "İ", "K", "info", "OFF", "::", "_", "1", "=", ",", "\U0001F600",
                 "debug", "Trace", "　", "x"]
-    return "".join(rng.choice(alphabet) for _ in range(rng.randint(0, 12)))
+    return "".join(rng.choice(alphabet) for _ in range(rng.choice([rng.randint(0, 12), rng.randint(0, 12), rng.randint(20, 70)])))
 
 
 def gen_spec_case(rng):
